@@ -751,9 +751,26 @@ func ParseDouble(tok string) (float64, error) {
 		}
 		return 0, nil
 	}
-	r, ok := new(big.Rat).SetString(tok)
+	// value = digits x 10^(exp - number of fraction digits), as an exact fraction (Rat.SetString refuses literals whose
+	// exponent exceeds a million)
+	frac := 0
+	if i := strings.IndexByte(mant, '.'); i >= 0 {
+		frac = len(mant) - i - 1
+	}
+	m, ok := new(big.Int).SetString(digits, 10)
 	if !ok {
 		return 0, fmt.Errorf("bad number %q", tok)
+	}
+	e := new(big.Int).Sub(exp, big.NewInt(int64(frac)))
+	p10 := new(big.Int).Exp(big.NewInt(10), new(big.Int).Abs(e), nil)
+	r := new(big.Rat)
+	if e.Sign() >= 0 {
+		r.SetInt(m.Mul(m, p10))
+	} else {
+		r.SetFrac(m, p10)
+	}
+	if neg {
+		r.Neg(r)
 	}
 	f, _ := r.Float64()
 	return f, nil
